@@ -5,9 +5,30 @@ Composition of the two end-to-end theorems (`C01RoundTrip`, `C02RoundTrip`): for
 XMI → CAS → JSON → CAS and the chain JSON → CAS → XMI → CAS (original type system supplied at every step) succeed, and
 the CAS at the end has the same views, sofa data, member ids, feature structures, ids, types and feature contents as the
 CAS that was written first.  What makes the composition go through is that a loaded CAS is again in the fragment and
-well-formed (`RTWf`, `FlatFs`, `JsonFs`, `MembersOk`, … hold for what the loaders produce).
+well-formed (`FlatFs`, `JsonFs`, `MembersOk`, the view part of `RTWf`, … hold for what the loaders produce).
+
+Hypotheses: the union of those of the two round-trip theorems, stated for the CAS that is written first.  Nothing is
+assumed about intermediate or final loader outputs.  One hypothesis is added to `chain_xmi_json_flat`:
+* `hsr` — a feature named `sofa` that holds a sofa has a range that is not primitive (nor `Float`/`Double`).  The flat
+  fragment lets a feature named `sofa` of *any* non-collection range hold the sofa reference; the XMI codec treats the
+  name specially, the JSON writer goes by the range and raises `TypeError` for a primitive one.  In
+  `chain_json_xmi_flat` this follows from the success of the first `saveJson`; in `chain_xmi_json_flat` the first
+  writer is the XMI one, so it has to be assumed.
+  Counterexample without it (evaluated with `#eval`): `Gen.builtinTS` plus the type `x.T` (child of `uima.cas.TOP`) with
+  the feature `sofa : uima.cas.Integer`; `Cas.new (some [97]) none`; one `x.T` whose `sofa` slot is
+  `.sofa 0 "_InitialView"`, indexed with `Cas.add`.  Every other hypothesis holds (`rtAppliesB … = true`,
+  `jsonFsB` on the collected structure), `saveXmi` and `loadXmi` succeed, and `saveJson` on the
+  loaded CAS returns `typeError`.
+
+Two obstacles were met that are *not* obstacles to the conclusions and are handled inside the proof
+(`Proofs/ChainDefs.lean`): `RTWf.ids_below`/`ids_pos` do not hold for a loaded CAS together with the loader's heap (the
+heap still contains the structures of the CAS written first — possibly with larger ids — and the `cas:NULL` object with
+id 0 of the XMI reader), and `RTWf.conv` does not hold after the XMI reader for the empty text (no converter is
+installed).  An `#eval` of the chain on an instance with the empty text, an annotation at (0, 0) and an unreachable
+structure with id 100 shows the conclusion to hold there.
 -/
 import CassisModel.Proofs.Chain
+import CassisModel.Proofs.ChainDemo
 
 namespace Cassis
 open Cassis.TS Cassis.Traverse Cassis.Xmi
@@ -19,6 +40,9 @@ theorem chain_xmi_json_flat (K : Consts) (ts : TypeSystem) (cass : List Cas) (ci
     (hsave : saveXmi K ts cass ci hp = .ok (doc, st))
     (hflat : ∀ q ∈ st.allFs, FlatFs K ts c ci st.heap q.2)
     (hjson : ∀ q ∈ st.allFs, Json.JsonFs ts st.heap q.2)
+    (hsr : ∀ q ∈ st.allFs, ∀ (o : Obj) (t : TypeRec), st.heap[q.2]? = some o → find? ts o.ty = some t →
+      ∀ f ∈ allFeatures t, f.name = "sofa" → (alistGet? o.slots f.name).getD .none ≠ .none →
+        f.range ≠ "uima.cas.Double" ∧ f.range ≠ "uima.cas.Float" ∧ isPrimitive K ts f.range = false)
     (hdis : ∀ q ∈ st.allFs, ∀ nv ∈ c.views, q.1 ≠ nv.2.sofa.xid)
     (hmem : ∀ nv ∈ c.views, ∀ e ∈ Index.all nv.2.idx, Xmi.slot st.heap e.oid "sofa" ≠ some .none)
     (hmok : MembersOk c st.heap) :
@@ -31,7 +55,7 @@ theorem chain_xmi_json_flat (K : Consts) (ts : TypeSystem) (cass : List Cas) (ci
           st.heap[q.2]? = some o ∧ ld2.heap[a2]? = some o2 ∧ o2.ty = o.ty ∧ o2.xid = some q.1 ∧
           ∀ t : TypeRec, find? ts o.ty = some t → ∀ f ∈ allFeatures t,
             featContent ld2.heap a2 f.name = featContent st.heap q.2 f.name) :=
-  chain_xmi_json_flat_aux K ts cass ci c hp tsIdx doc st hc hwf hnull hsave hflat hjson hdis hmem hmok
+  chain_xmi_json_flat_aux K ts cass ci c hp tsIdx doc st hc hwf hnull hsave hflat hjson hsr hdis hmem hmok
 
 /-- JSON → CAS → XMI → CAS -/
 theorem chain_json_xmi_flat (K : Consts) (ts : TypeSystem) (cass : List Cas) (ci : Nat) (c : Cas) (hp : Heap)
@@ -55,5 +79,53 @@ theorem chain_json_xmi_flat (K : Consts) (ts : TypeSystem) (cass : List Cas) (ci
           ∀ t : TypeRec, find? ts o.ty = some t → ∀ f ∈ allFeatures t,
             featContent ld2.heap a2 f.name = featContent st.heap q.2 f.name) :=
   chain_json_xmi_flat_aux K ts cass ci c hp tsIdx docj st hc hwf hnull hsave hflat hjson hids hdis hmem hmok
+
+/-! ### Non-vacuity
+
+The instance of `Proofs/RoundTripDemo.lean` (type `x.Tok` with an Integer and a reference feature, text `a😀b`, two
+structures referring to each other, one of them indexed): every hypothesis of both theorems holds
+(`Chain.Demo.demo_hyps_chain`, `Json.Demo.demo_hypsJ` and `NullOk`), so both theorems apply. -/
+
+example : ∃ (doc : XDoc) (st : St),
+    saveXmi Demo.K Demo.demoTS [Demo.demo.1] 0 Demo.demo.2 = .ok (doc, st) ∧
+    [Demo.demo.1][0]? = some Demo.demo.1 ∧ RTWf Demo.demo.1 Demo.demo.2 ∧ NullOk Demo.demoTS ∧
+    (∀ q ∈ st.allFs, FlatFs Demo.K Demo.demoTS Demo.demo.1 0 st.heap q.2) ∧
+    (∀ q ∈ st.allFs, Json.JsonFs Demo.demoTS st.heap q.2) ∧
+    (∀ q ∈ st.allFs, ∀ (o : Obj) (t : TypeRec), st.heap[q.2]? = some o → find? Demo.demoTS o.ty = some t →
+      ∀ f ∈ allFeatures t, f.name = "sofa" → (alistGet? o.slots f.name).getD .none ≠ .none →
+        f.range ≠ "uima.cas.Double" ∧ f.range ≠ "uima.cas.Float" ∧ isPrimitive Demo.K Demo.demoTS f.range = false) ∧
+    (∀ q ∈ st.allFs, ∀ nv ∈ Demo.demo.1.views, q.1 ≠ nv.2.sofa.xid) ∧
+    (∀ nv ∈ Demo.demo.1.views, ∀ e ∈ Index.all nv.2.idx, Xmi.slot st.heap e.oid "sofa" ≠ some .none) ∧
+    MembersOk Demo.demo.1 st.heap := Chain.Demo.demo_hyps_chain
+
+/-- `chain_xmi_json_flat` applied to the instance -/
+example : ∃ (doc : XDoc) (st : St) (ld1 : Xmi.Loaded) (docj : Json.JDoc) (st2 : St) (ld2 : Json.Loaded),
+    saveXmi Demo.K Demo.demoTS [Demo.demo.1] 0 Demo.demo.2 = .ok (doc, st) ∧
+    loadXmi Demo.K Demo.demoTS 0 1 false st.heap doc = .ok ld1 ∧
+    Json.saveJson Demo.K Demo.demoTS ([Demo.demo.1] ++ [ld1.cas]) 1 ld1.heap .none = .ok (docj, st2) ∧
+    Json.loadJson Demo.K Demo.demoTS 0 2 false false st2.heap docj = .ok ld2 ∧
+    ld2.cas.views.map (viewContent ld2.heap) = Demo.demo.1.views.map (viewContent st.heap) := by
+  obtain ⟨doc, st, hs, hc, hwf, hn, hf, hj, hsr, hd, hm, hmo⟩ := Chain.Demo.demo_hyps_chain
+  obtain ⟨ld1, docj, st2, ld2, _, h1, h2, h3, h4, _⟩ :=
+    chain_xmi_json_flat Demo.K Demo.demoTS [Demo.demo.1] 0 Demo.demo.1 Demo.demo.2 0 doc st
+      hc hwf hn hs hf hj hsr hd hm hmo
+  exact ⟨doc, st, ld1, docj, st2, ld2, hs, h1, h2, h3, h4⟩
+
+/-- `chain_json_xmi_flat` applied to the instance -/
+example : ∃ (docj : Json.JDoc) (st : St) (ld1 : Json.Loaded) (docx : XDoc) (st2 : St) (ld2 : Xmi.Loaded),
+    Json.saveJson Demo.K Demo.demoTS [Demo.demo.1] 0 Demo.demo.2 .none = .ok (docj, st) ∧
+    Json.loadJson Demo.K Demo.demoTS 0 1 false false st.heap docj = .ok ld1 ∧
+    saveXmi Demo.K Demo.demoTS ([Demo.demo.1] ++ [ld1.cas]) 1 ld1.heap = .ok (docx, st2) ∧
+    loadXmi Demo.K Demo.demoTS 0 2 false st2.heap docx = .ok ld2 ∧
+    ld2.cas.views.map (viewContent ld2.heap) = Demo.demo.1.views.map (viewContent st.heap) := by
+  obtain ⟨docj, st, hs, hc, hwf, hf, hj, hi, hd, hm, hmo⟩ := Json.Demo.demo_hypsJ
+  obtain ⟨_, _, _, _, _, hn, _⟩ := Demo.demo_hyps
+  obtain ⟨ld1, docx, st2, _, ld2, h1, h2, _, h3, h4, _⟩ :=
+    chain_json_xmi_flat Demo.K Demo.demoTS [Demo.demo.1] 0 Demo.demo.1 Demo.demo.2 0 docj st
+      hc hwf hn hs hf hj hi hd hm hmo
+  exact ⟨docj, st, ld1, docx, st2, ld2, hs, h1, h2, h3, h4⟩
+
+#print axioms chain_xmi_json_flat
+#print axioms chain_json_xmi_flat
 
 end Cassis
